@@ -4,7 +4,7 @@ usage: seedstore.py <name> <property> <pkgdir> <run pattern> <needs> <caught-by 
 import json, os, shutil, subprocess, sys
 name, prop, pkg, pat, needs, caught = sys.argv[1:7]
 demos = sys.argv[7:]
-src = "/tmp/seed/%s/out" % name.split("-")[0]
+src = "%s/%s/out" % (os.environ.get("SEEDBASE", "/tmp/seed"), name.split("-")[0])
 dst = "/verif/seeded/%s" % name
 os.makedirs(dst, exist_ok=True)
 shutil.copy(os.path.join(src, "patch.diff"), dst)
